@@ -2,6 +2,7 @@ package props
 
 import (
 	"fmt"
+	"math"
 	"sort"
 	"strings"
 	"sync"
@@ -784,12 +785,89 @@ func c18Pre(ck *c18Checker) {
 			}
 			ck.res.Eval("pre/" + label + "/" + ts.label)
 		}
-		// same ref, inconsistent annotations on first and last: run, not asserted
-		w := c18Way([]int64{1, 2, 3, 1}, ts.tags)
-		w.Nodes[0].Lat, w.Nodes[3].Lat, w.Nodes[3].Version = 1, 2, 5
-		c18CallWay(w)
-		ck.res.Add("shape_grey_zone_runs", 1)
+		// Closedness is a property of the node REFS: the two end way-nodes of a closed way may
+		// carry different annotations (Way.ApplyUpdatesUpTo rewrites one index at a time, a
+		// one-sided annotation, NaN coordinates) and the way is still closed; conversely end
+		// nodes that agree in everything but the ref do not close a way.
+		wantTags := c18RefTags(c18TagSet(ts.tags), false)
+		for _, av := range c18EndVariants() {
+			for _, ids := range [][]int64{{1, 2, 3, 1}, {1, 2, 3, 4, 1}, {-7, 2, 3, -7}} {
+				for _, closed := range []bool{true, false} {
+					w := c18Way(ids, ts.tags)
+					for i := 1; i < len(w.Nodes)-1; i++ {
+						w.Nodes[i].Version, w.Nodes[i].ChangesetID, w.Nodes[i].Lat, w.Nodes[i].Lon = 2, 8, 3.5, 4.5
+					}
+					last := len(w.Nodes) - 1
+					first := w.Nodes[0].ID
+					w.Nodes[0], w.Nodes[last] = av.first, av.last
+					w.Nodes[0].ID, w.Nodes[last].ID = first, first
+					shape := "closed"
+					if !closed {
+						// open way: the end nodes differ in the ref (and in whatever av differs in)
+						w.Nodes[last].ID = first + 100
+						shape = "open"
+					}
+					got, stable, pan := c18CallWay(w)
+					ck.res.Event(2)
+					want := closed && wantTags
+					key := fmt.Sprintf("C18/pre/end-nodes-%s/%s/n%d/%s", av.label, shape, len(ids), ts.label)
+					if pan != nil {
+						ck.violate(key+"/panic", "Way.Polygon() panicked (%v) for end way-nodes %+v / %+v", pan, w.Nodes[0], w.Nodes[last])
+					} else if !stable || got != want {
+						ck.violate(key, "Way.Polygon()=%v (stable %v), want %v: %d refs, end way-nodes %+v / %+v (closedness is equality of the refs), tags=%s",
+							got, stable, want, len(ids), w.Nodes[0], w.Nodes[last], c18FmtTags(ts.tags))
+					}
+					ck.res.Eval(fmt.Sprintf("pre/end-nodes-%s/%s/%s", av.label, shape, ts.label))
+					ck.res.Put("end_node_variants", av.label)
+				}
+			}
+		}
 	}
+}
+
+// c18EndVariants: annotations of the first / last way node of a ring. Every non-empty subset
+// of {version, changeset, lat, lon} differing between the two ends, identical annotations,
+// one-sided annotations, and NaN coordinates (NaN != NaN even when both ends are "the same").
+type c18EndVariant struct {
+	label       string
+	first, last osm.WayNode
+}
+
+func c18EndVariants() []c18EndVariant {
+	base := osm.WayNode{Version: 3, ChangesetID: 9, Lat: 1.5, Lon: 2.5}
+	out := []c18EndVariant{{"same", base, base}, {"bare", osm.WayNode{}, osm.WayNode{}},
+		{"first-only-annotated", base, osm.WayNode{}}, {"last-only-annotated", osm.WayNode{}, base}}
+	names := []string{"version", "changeset", "lat", "lon"}
+	for mask := 1; mask < 16; mask++ {
+		l := base
+		var parts []string
+		for bit, n := range names {
+			if mask&(1<<bit) == 0 {
+				continue
+			}
+			parts = append(parts, n)
+			switch bit {
+			case 0:
+				l.Version = 4
+			case 1:
+				l.ChangesetID = 10
+			case 2:
+				l.Lat = 1.5000001
+			case 3:
+				l.Lon = -2.5
+			}
+		}
+		out = append(out, c18EndVariant{"differ-" + strings.Join(parts, "+"), base, l})
+		out = append(out, c18EndVariant{"differ-" + strings.Join(parts, "+") + "-swapped", l, base})
+	}
+	nan := math.NaN()
+	nl, no, nb := base, base, base
+	nl.Lat, no.Lon = nan, nan
+	nb.Lat, nb.Lon = nan, nan
+	out = append(out, c18EndVariant{"nan-lat-both-ends", nl, nl}, c18EndVariant{"nan-lon-both-ends", no, no},
+		c18EndVariant{"nan-latlon-both-ends", nb, nb}, c18EndVariant{"nan-lat-first-only", nl, base}, c18EndVariant{"nan-lon-last-only", base, no},
+		c18EndVariant{"zero-vs-negzero-lat", osm.WayNode{Lat: 0}, osm.WayNode{Lat: math.Copysign(0, -1)}})
+	return out
 }
 
 // rel: Relation.Polygon() ⇔ type ∈ {multipolygon, boundary}.
@@ -1092,7 +1170,7 @@ func init() {
 			"(single) every rule key × every value listed under ANY key ∪ nine near-misses of each listed value (±char, case, blank, ';yes', NUL) ∪ {yes, no, \"\", No, NO, 'no ', unicode, 300 chars, …} × area ∈ {absent, no, yes, \"\", other}, each under 2 orders, under 4 orders with three hostile unrelated tags interleaved, and on an open and a 3-ref way; " +
 			"(pairs) all ordered pairs of rule keys × {no, \"\", yes, a value listed under another key, every own listed value}² × the five area classes, both orders; " +
 			"(perm) every key × representative value × area class with two unrelated tags under ALL permutations; (unrelated) 57 near-miss keys alone, in all ordered pairs, all together, and around every key × representative value; " +
-			"(area) 24 spellings of the area value × 8 tag contexts; (pre) 31 node-ref shapes (0..6 and 2000 refs, open, closed, inner loops, negative / zero / >2^32 refs) × 12 tag sets, annotated way nodes; " +
+			"(area) 24 spellings of the area value × 8 tag contexts; (pre) 31 node-ref shapes (0..6 and 2000 refs, open, closed, inner loops, negative / zero / >2^32 refs) × 12 tag sets; 40 annotation variants of the two end way-nodes (every subset of version/changeset/lat/lon differing, one-sided, NaN) × closed-by-ref / open-by-ref × 3 rings × 12 tag sets; " +
 			"(rel) 33 type values + absent × 6 tag contexts × with/without members × type first/last/middle; (multi) PRNG sets of 0–6 rule keys + area + unrelated tags under reverse, every rotation and 4 shuffles. " +
 			"A signature is the tag set itself for single (key, value, area class), the (key:class, key:class, area) triple for pairs, (key:class, area, n) for perm, the named shape × tag set for pre, (type, context, members) for rel and a (rule keys, area, unrelated, shape, answer) class for multi; re-orderings and open/3-ref repeats of an already counted set are trivial. distinct_nontrivial counts distinct signatures.",
 		Assumptions: []string{
@@ -1101,7 +1179,7 @@ func init() {
 			"an EMPTY area value is 'tag absent' (the statement says non-empty): asserted. A rule key present with an EMPTY value: the library treats it as absent (Tags.Find cannot tell), the literal statement / osmtogeojson would count \"\" as 'a value other than no'; the readings differ only for all/blacklist keys, those inputs are run, checked for order independence and panics, and the observed reading is counted (empty_rule_value_observed_as_*), but no answer is asserted; for whitelist keys both readings say 'does not pass' and that is asserted",
 			"comparisons are exact strings as in the published rules: 'No', 'no ' and ' no' are values other than 'no'; near-miss keys (case, blanks, prefixes such as building:levels) are unrelated tags",
 			"a tag list that repeats a key is not a tag set; never generated",
-			"closedness is equality of the first and last node ref with more than three refs, whatever the refs are (negative, zero, > 2^32, there-and-back rings); a 4-ref way whose refs are all the same node, and first/last way nodes with the same ref but different version/coordinates, are run but not asserted",
+			"closedness is equality of the first and last node ref with more than three refs, whatever the refs are (negative, zero, > 2^32, there-and-back rings); the annotations of the two end way-nodes (version, changeset, lat, lon, NaN, one-sided) do not matter and are enumerated in every combination; only a 4-ref way whose refs are all the same node is run but not asserted",
 			"Relation.Polygon() is compared for every listed type spelling; members, other tags (including area=no) and tag order must not matter",
 		},
 		Cases: func(tier string, seed uint64) []fw.Case {
